@@ -68,11 +68,11 @@ func validateJSONPatches(patches []byte) error {
 		if path != "" && !strings.HasPrefix(path, "/") {
 			return fmt.Errorf("%s: invalid path", patch.JSONPatch)
 		}
-		if strings.HasPrefix(path, "/"+document.ServiceProperty) {
+		if addresses(path, document.ServiceProperty) {
 			return fmt.Errorf("%s: cannot modify services", patch.JSONPatch)
 		}
 
-		if strings.HasPrefix(path, "/"+document.PublicKeyProperty) {
+		if addresses(path, document.PublicKeyProperty) {
 			return fmt.Errorf("%s: cannot modify public keys", patch.JSONPatch)
 		}
 
@@ -86,15 +86,21 @@ func validateJSONPatches(patches []byte) error {
 				return fmt.Errorf("%s: invalid from", patch.JSONPatch)
 			}
 
-			if strings.HasPrefix(from, "/"+document.ServiceProperty) {
+			if addresses(from, document.ServiceProperty) {
 				return fmt.Errorf("%s: cannot modify services", patch.JSONPatch)
 			}
 
-			if strings.HasPrefix(from, "/"+document.PublicKeyProperty) {
+			if addresses(from, document.PublicKeyProperty) {
 				return fmt.Errorf("%s: cannot modify public keys", patch.JSONPatch)
 			}
 		}
 	}
 
 	return nil
+}
+
+// addresses reports whether the JSON pointer addresses the given top-level member or something inside it
+// (a member whose name merely starts with the same characters, e.g. "serviceCount", is a different member).
+func addresses(pointer, member string) bool {
+	return pointer == "/"+member || strings.HasPrefix(pointer, "/"+member+"/")
 }
